@@ -67,7 +67,7 @@ def c04(arrs, N, tmin, tmax, model, discrete=False, moves=None, must_die_out=Fal
     if np.any(np.diff(t) < 0):
         bad.append(("order", "times decrease: %s" % t.tolist()))
     if discrete:
-        if every_step and not np.all(np.diff(t) == 1):
+        if every_step and not np.all(np.abs(np.diff(t) - 1) < 1e-9):      # (tmin + k by repeated addition: one ulp off for non-dyadic tmin)
             bad.append(("step", "discrete times do not advance by one: %s" % t.tolist()))
         gap = tmax - tmin
         if gap != INF and float(gap).is_integer() and np.any(t > tmax):
